@@ -82,6 +82,15 @@ func VerifC04_SessionEnd(st any) {
 			}
 		}
 	}
+	// optionally a prepared query bound to session A
+	const queryID = "cccccccc-cccc-cccc-cccc-cccccccccccc"
+	hasQuery := verifrt.Bool("A.query")
+	if hasQuery {
+		if err := s.PreparedQuerySet(tick(), &structs.PreparedQuery{ID: queryID, Name: "q", Session: vSessA,
+			Service: structs.ServiceQuery{Service: "web"}}); err != nil {
+			panic(err)
+		}
+	}
 	idx := verifrt.U64("idx")
 	verifrt.Assume(idx > next)
 
@@ -130,6 +139,14 @@ func VerifC04_SessionEnd(st any) {
 			verifrt.Assert("C04."+evName+".held-key-deleted", e == nil)
 		default:
 			verifrt.Assert("C04."+evName+".held-key-released", e != nil && e.Session == "" && e.LockIndex == 1)
+		}
+	}
+	if hasQuery {
+		_, q, err := s.PreparedQueryGet(nil, queryID)
+		if ended[0] {
+			verifrt.Assert("C04."+evName+".session-bound-query-removed", err == nil && q == nil)
+		} else {
+			verifrt.Assert("C04."+evName+".query-of-live-session-kept", err == nil && q != nil)
 		}
 	}
 	// no dangling holder, no dangling check link
